@@ -120,6 +120,16 @@ def scenarios(P):
             'quick_first': ('R',),
             'probes': [('dr', []), ('reg', ['rr'])],
         },
+        's10-dir-overrides-default-rule': {
+            # policy.d overrides the DEFAULT RULE itself; the edit touches an
+            # unrelated rule of the main file.  Probes ask for a name defined
+            # nowhere, which the (directory's) default decides
+            'old': {'policy.yaml': {'default': 'role:adm', 'x': 'role:x1'},
+                    'd1/o.yaml': {'default': 'role:adm or role:mem'}},
+            'new': {'policy.yaml': {'default': 'role:adm', 'x': 'role:x2'}},
+            'defaults': [], 'conf': {},
+            'probes': [('zz', ['mem']), ('zz', ['adm'])],
+        },
         's5-alias-halves-swap': {
             'old': {'policy.yaml': {'a': 'rule:h1 and rule:h2',
                                     'h1': 'role:p', 'h2': 'role:q'}},
@@ -138,7 +148,8 @@ TIERS = {
                         's4-deprecated-defaults', 's6-two-dirs-no-edit',
                         's7-untouched-rule-of-edited-file',
                         's8-override-of-default-removed',
-                        's9-dir-rule-beside-missing-default'],
+                        's9-dir-rule-beside-missing-default',
+                        's10-dir-overrides-default-rule'],
                   bound=2, reduced=True, opcode=False,
                   probes={'s1-main-edit-dir-override': [2, 1],
                           's1b-main-edit-dir-touched': [1],
@@ -148,7 +159,8 @@ TIERS = {
                           's6-two-dirs-no-edit': [1],
                           's7-untouched-rule-of-edited-file': [2],
                           's8-override-of-default-removed': [1],
-                          's9-dir-rule-beside-missing-default': [2]}),
+                          's9-dir-rule-beside-missing-default': [2],
+                          's10-dir-overrides-default-rule': [1, 1]}),
     'thorough': dict(scen=None, bound=2, reduced=False, opcode=True,
                      probes=None),
 }
